@@ -20,7 +20,7 @@ From RecordUpdate Require Import RecordUpdate.
 
 (* the classifier verdict carried by an outcome *)
 Definition fail_of (o : outcome) : bool :=
-  match o with OOk f => f | OErr f => f | OPanic => false end.
+  match o with OOk f => f | OErr f => f | OPanic | OCPanic => false end.
 
 Lemma circ_gsync old s : circ (gsync old s) = circ s.
 Proof. exact (Proof.Circuit.circ_gsync old s). Qed.
@@ -66,13 +66,13 @@ Qed.
 
 (* the poll that finds the inner call completed records the outcome *)
 Lemma poll_running_completed cf s i start tr o :
-  cs s i = Running start tr -> gate s i = Some o -> o <> OPanic ->
+  cs s i = Running start tr -> gate s i = Some o -> o <> OPanic -> o <> OCPanic ->
   circ (fst (poll cf s i)) = record (now s) cf (fail_of o) (now s - start) (circ s) /\
   now (fst (poll cf s i)) = now s /\
   cs (fst (poll cf s i)) = upd (cs s) i Done /\ gate (fst (poll cf s i)) = gate s.
 Proof.
-  intros Hc Hg Ho. unfold poll. cbn. rewrite Hc. unfold poll_running. cbn. rewrite Hg.
-  destruct o as [f|f|]; [| |congruence]; cbn [fst];
+  intros Hc Hg Ho Hoc. unfold poll. cbn. rewrite Hc. unfold poll_running. cbn. rewrite Hg.
+  destruct o as [f|f| |]; [| |congruence|congruence]; cbn [fst];
     rewrite circ_gsync, now_gsync, cs_gsync, gate_gsync; cbn; repeat split.
 Qed.
 
@@ -96,7 +96,7 @@ Qed.
 (* admitted: first poll starts the inner call, the clock advances by the latency, the inner
    call completes, the second poll records the outcome — exactly seq_step's HCall *)
 Lemma sequential_call_admitted cf s i o l :
-  cs s i = Created -> gate s i = None -> o <> OPanic ->
+  cs s i = Created -> gate s i = None -> o <> OPanic -> o <> OCPanic ->
   snd (try_acquire (now s) cf (circ s)) = true ->
   let s1 := step_st cf s (Poll i) in let s2 := step_st cf s1 (Advance l) in
   let s3 := step_st cf s2 (Complete i o) in let s4 := step_st cf s3 (Poll i) in
@@ -104,7 +104,7 @@ Lemma sequential_call_admitted cf s i o l :
   started (snd (step cf s (Poll i))) = true /\
   (forall j, cs s4 j = upd (cs s) i Done j) /\ gate s4 = upd (gate s) i (Some o).
 Proof.
-  intros Hc Hg Ho Hadm s1 s2 s3 s4.
+  intros Hc Hg Ho Hoc Hadm s1 s2 s3 s4.
   destruct (try_acquire (now s) cf (circ s)) as [c' ok] eqn:Ht. cbn [snd] in Hadm. subst ok.
   destruct (poll_created_admitted cf s i c' Hc Hg Ht) as (tr & a1 & a2 & a3 & a4 & a5).
   fold (step cf s (Poll i)) in a1, a2, a3, a4, a5. fold (step_st cf s (Poll i)) in a1, a2, a3, a4.
@@ -119,7 +119,7 @@ Proof.
   destruct c as (c1 & c2 & c3 & c4). clearbody s3.
   assert (Hcs3 : cs s3 i = Running (now s) tr) by (rewrite c3, a3; apply upd_same).
   assert (Hg3 : gate s3 i = Some o) by (rewrite c4; apply upd_same).
-  destruct (poll_running_completed cf s3 i (now s) tr o Hcs3 Hg3 Ho) as (d1 & d2 & d3 & d4).
+  destruct (poll_running_completed cf s3 i (now s) tr o Hcs3 Hg3 Ho Hoc) as (d1 & d2 & d3 & d4).
   fold (step cf s3 (Poll i)) in d1, d2, d3, d4. fold (step_st cf s3 (Poll i)) in d1, d2, d3, d4.
   fold s4 in d1, d2, d3, d4.
   unfold seq_step. rewrite Ht, d1, d2, c1, c2.
@@ -132,7 +132,7 @@ Qed.
    too when the call was admitted — a rejected caller that nevertheless lets [l] ms pass has
    simply waited (seq_step's rejected call takes no time) *)
 Lemma sequential_call cf s i o l :
-  cs s i = Created -> gate s i = None -> o <> OPanic -> 0 <= l ->
+  cs s i = Created -> gate s i = None -> o <> OPanic -> o <> OCPanic -> 0 <= l ->
   let s1 := step_st cf s (Poll i) in let s2 := step_st cf s1 (Advance l) in
   let s3 := step_st cf s2 (Complete i o) in let s4 := step_st cf s3 (Poll i) in
   let '(p', inv) := seq_step cf (now s, circ s) (HCall (fail_of o) l) in
@@ -140,9 +140,9 @@ Lemma sequential_call cf s i o l :
   now s4 = (if started (snd (step cf s (Poll i))) then fst p' else fst p' + l) /\
   Some (started (snd (step cf s (Poll i)))) = inv.
 Proof.
-  intros Hc Hg Ho Hl s1 s2 s3 s4.
+  intros Hc Hg Ho Hoc Hl s1 s2 s3 s4.
   destruct (snd (try_acquire (now s) cf (circ s))) eqn:Hadm.
-  - destruct (sequential_call_admitted cf s i o l Hc Hg Ho Hadm) as (E & Hst & _).
+  - destruct (sequential_call_admitted cf s i o l Hc Hg Ho Hoc Hadm) as (E & Hst & _).
     fold s1 s2 s3 s4 in E. rewrite E, Hst. cbn. auto.
   - destruct (sequential_call_rejected cf s i (fail_of o) l Hc Hadm) as (E & Hst & Hcs & Hgt).
     fold s1 in E, Hcs, Hgt. rewrite E, Hst. cbn [fst snd].
@@ -263,7 +263,7 @@ Section History.
   Definition fresh (s : st) (i : nat) : Prop :=
     forall j, (i <= j)%nat -> cs s j = Created /\ gate s j = None.
 
-  Context (oc_ok : forall f, fail_of (oc f) = f /\ oc f <> OPanic).
+  Context (oc_ok : forall f, fail_of (oc f) = f /\ oc f <> OPanic /\ oc f <> OCPanic).
 
   Lemma hev_step s i e :
     fresh s i ->
@@ -273,9 +273,9 @@ Section History.
   Proof.
     intros Hf. destruct (Hf i (le_n i)) as [Hc Hg].
     destruct e as [f l|d| | |]; unfold after_hev, evs_of_hev, inv_of_hev.
-    - destruct (oc_ok f) as [Hfo Hnp].
+    - destruct (oc_ok f) as (Hfo & Hnp & Hncp).
       destruct (snd (try_acquire (now s) cf (circ s))) eqn:Hadm.
-      + destruct (sequential_call_admitted cf s i (oc f) l Hc Hg Hnp Hadm) as (E & Hst & Hcs & Hgt).
+      + destruct (sequential_call_admitted cf s i (oc f) l Hc Hg Hnp Hncp Hadm) as (E & Hst & Hcs & Hgt).
         rewrite Hst. cbn [fold_left]. rewrite Hfo in E. split; [exact E|].
         intros j Hj. rewrite Hcs, Hgt, !upd_other by lia. apply Hf. lia.
       + destruct (sequential_call_rejected cf s i f l Hc Hadm) as (E & Hst & Hcs & Hgt).
@@ -317,8 +317,9 @@ End History.
 (* errors are failures, responses are successes (the default classifier) *)
 Definition oc_default (f : bool) : outcome := if f then OErr true else OOk false.
 
-Lemma oc_default_ok : forall f, fail_of (oc_default f) = f /\ oc_default f <> OPanic.
-Proof. intros [|]; cbn; split; congruence. Qed.
+Lemma oc_default_ok :
+  forall f, fail_of (oc_default f) = f /\ oc_default f <> OPanic /\ oc_default f <> OCPanic.
+Proof. intros [|]; cbn; repeat split; congruence. Qed.
 
 (* three failures trip the count-based breaker (window 3); the next call is rejected and its
    script is a single poll; after the wait a trial call closes the breaker again *)
@@ -348,3 +349,214 @@ Example ex_sequential_call_rejected :
   let s := step_st cf_count init ForceOpen in
   cs s 0%nat = Created /\ snd (try_acquire (now s) cf_count (circ s)) = false.
 Proof. vm_compute. split; reflexivity. Qed.
+
+#[local] Arguments Z.of_nat : simpl never.
+
+(* ------------------------------------------------------------------------- *)
+(* The count-based counters always describe the ring buffer exactly — in every reachable state
+   of the SERVICE model (concurrent callers, late outcomes recorded while open, trials while
+   half-open, cancellations), not only along sequential histories.  In particular none of them
+   is ever negative: the code's `usize` decrements in slide_count_window cannot underflow. *)
+Definition counts_ok (c : circuit) : Prop :=
+  tc c = Z.of_nat (length (cwin c)) /\
+  fc c = Z.of_nat (length (filter fst (cwin c))) /\
+  sc c = tc c - fc c /\
+  slowc c = Z.of_nat (length (filter snd (cwin c))).
+
+Definition same_cnt (c c' : circuit) : Prop :=
+  cwin c' = cwin c /\ tc c' = tc c /\ fc c' = fc c /\ sc c' = sc c /\ slowc c' = slowc c.
+
+Lemma counts_same c c' : counts_ok c -> same_cnt c c' -> counts_ok c'.
+Proof. intros (A&B&C&D) (E1&E2&E3&E4&E5). unfold counts_ok. rewrite E1, E2, E3, E4, E5. auto. Qed.
+
+Lemma counts_clear c : counts_ok (clear_window c).
+Proof. unfold counts_ok. cbn. repeat split. Qed.
+
+Lemma counts_transition now s c : counts_ok c -> counts_ok (transition_to now s c).
+Proof.
+  intros H. unfold transition_to. destruct (cstate_eqb (state c) s); [exact H|].
+  unfold counts_ok. cbn. repeat split.
+Qed.
+
+Lemma counts_slide_loop n : forall fuel c, counts_ok c -> counts_ok (slide_loop fuel n c).
+Proof.
+  induction fuel as [|k IH]; intros c H; cbn [slide_loop]; [exact H|].
+  destruct (n <? Z.of_nat (length (cwin c))); [|exact H].
+  destruct (cwin c) as [|[oldf olds] rest] eqn:Ew; [exact H|].
+  apply IH. destruct H as (A&B&C&D). rewrite Ew in A, B, D. cbn [filter fst snd length] in A, B, D.
+  unfold counts_ok.
+  destruct oldf, olds; cbn [filter fst snd length] in *; cbn; rewrite ?Nat2Z.inj_succ in *; repeat split; lia.
+Qed.
+
+Lemma counts_record_cb cf f sl c :
+  counts_ok c -> counts_ok (slide_count_window cf f sl (bump f sl c)).
+Proof.
+  intros (A&B&C&D). unfold slide_count_window.
+  set (c1 := _ <| cwin := _ |>).
+  assert (H1 : counts_ok c1).
+  { subst c1. unfold counts_ok, bump.
+    destruct f, sl; cbn; rewrite !filter_app, !app_length; cbn [filter fst snd length];
+      rewrite ?Nat2Z.inj_add, ?Nat.add_0_r; cbn [length]; repeat split; try lia. }
+  destruct (state c1); [apply counts_slide_loop; exact H1|apply counts_slide_loop; exact H1|exact H1].
+Qed.
+
+Lemma counts_evaluate now cf c : counts_ok c -> counts_ok (evaluate_window now cf c).
+Proof.
+  intros H. unfold evaluate_window.
+  set (c1 := if time_based cf then cleanup_old_records now cf c else c).
+  assert (H1 : counts_ok c1)
+    by (subst c1; destruct (time_based cf); [eapply counts_same; [exact H|repeat split]|exact H]).
+  destruct (if time_based cf then time_based_stats c1 else (tc c1, fc c1, sc c1, slowc c1)) as [[[a b] d] e].
+  destruct (_ <? minc cf); [exact H1|].
+  destruct (negb (time_based cf) && _); [exact H1|].
+  destruct (_ || _); [|exact H1]. apply counts_transition. exact H1.
+Qed.
+
+Lemma counts_record now cf f d c : counts_ok c -> counts_ok (record now cf f d c).
+Proof.
+  intros H. unfold record.
+  set (c1 := if time_based cf then _ else _).
+  assert (H1 : counts_ok c1).
+  { subst c1. destruct (time_based cf).
+    - eapply counts_same; [exact H|repeat split].
+    - apply (counts_record_cb cf f (slow_on cf && (slow_thr cf <=? d)) c H). }
+  destruct (state c1).
+  - apply counts_evaluate. exact H1.
+  - apply counts_evaluate. exact H1.
+  - destruct f; [apply counts_transition; exact H1|].
+    cbn. destruct (permitted cf <=? hos c1 + 1).
+    + apply counts_transition. eapply counts_same; [exact H1|repeat split].
+    + eapply counts_same; [exact H1|repeat split].
+Qed.
+
+Lemma counts_try_acquire now cf c : counts_ok c -> counts_ok (fst (try_acquire now cf c)).
+Proof.
+  intros H. unfold try_acquire. destruct (state c).
+  - exact H.
+  - destruct (wait_open cf <=? now - last_change c); cbn [fst]; [|exact H].
+    eapply counts_same; [apply (counts_transition now HalfOpen c H)|repeat split].
+  - destruct (admitted c <? permitted cf); cbn [fst]; [|exact H].
+    eapply counts_same; [exact H|repeat split].
+Qed.
+
+Lemma counts_drop_trial tr c : counts_ok c -> counts_ok (drop_trial tr c).
+Proof.
+  intros H. destruct tr as [p|]; cbn; [destruct (p =? phase c)|]; exact H.
+Qed.
+
+Lemma counts_poll_running cf s i start tr b :
+  counts_ok (circ s) -> counts_ok (circ (fst (poll_running cf s i start tr b))).
+Proof.
+  intros H. unfold poll_running. destruct (gate s i) as [[f|f| |]|]; cbn [fst].
+  - rewrite circ_gsync. cbn. apply counts_record. exact H.
+  - rewrite circ_gsync. cbn. apply counts_record. exact H.
+  - cbn. apply counts_drop_trial.
+    replace (circ (ghandback tr s)) with (circ s)
+      by (destruct tr as [q|]; cbn; [destruct (_ =? _)|]; reflexivity).
+    exact H.
+  - exact H.
+  - exact H.
+Qed.
+
+Lemma counts_step cf s e : counts_ok (circ s) -> counts_ok (circ (step_st cf s e)).
+Proof.
+  intros H. unfold step_st, step. destruct e as [i|i|d|i o| | |]; cbn [fst].
+  - unfold poll. cbn. destruct (cs s i) as [|start tr| |]; try exact H.
+    + pose proof (counts_try_acquire (now s) cf (circ s) H) as Ha.
+      destruct (try_acquire (now s) cf (circ s)) as [c' ok]. cbn [fst] in Ha. destruct ok; cbn [fst].
+      * apply counts_poll_running. destruct (state c'); cbn; rewrite circ_gsync; exact Ha.
+      * exact Ha.
+    + apply counts_poll_running. exact H.
+  - unfold drop. cbn. destruct (cs s i) as [|start tr| |]; cbn; try exact H.
+    apply counts_drop_trial.
+    replace (circ (ghandback tr (s <| woken := upd (woken s) i false |>))) with (circ s)
+      by (destruct tr as [q|]; cbn; [destruct (_ =? _)|]; reflexivity).
+    exact H.
+  - exact H.
+  - unfold complete. destruct (gate s i); exact H.
+  - rewrite circ_gsync. cbn. apply counts_transition. exact H.
+  - rewrite circ_gsync. cbn. apply counts_transition. exact H.
+  - rewrite circ_gsync. cbn. apply counts_clear.
+Qed.
+
+Lemma filter_len_le {A} (p : A -> bool) l : (length (filter p l) <= length l)%nat.
+Proof. induction l as [|x l IH]; cbn; [lia|]. destruct (p x); cbn; lia. Qed.
+
+Theorem counts_consistent cf evs :
+  Forall (fun s => counts_ok (circ s) /\ 0 <= fc (circ s) /\ 0 <= sc (circ s) /\
+                   0 <= tc (circ s) /\ 0 <= slowc (circ s))
+         (states (step_st cf) init evs).
+Proof.
+  eapply Forall_impl; [|apply (reach_inv (step_st cf) (fun s => counts_ok (circ s)) init);
+                        [cbn; repeat split|intros s e; apply counts_step]].
+  intros s H. split; [exact H|]. destruct H as (A&B&C&D).
+  assert (length (filter fst (cwin (circ s))) <= length (cwin (circ s)))%nat by apply filter_len_le.
+  repeat split; lia.
+Qed.
+
+(* a late outcome while open, trials while half-open, a slide: the counters keep describing the
+   buffer (scenario of the review, 32 events) *)
+Example ex_counts :
+  let cf := mkCfg false 2 100 2 1 2 true 5 1 1 10 2 false in
+  let evs := [Poll 7%nat; Poll 0%nat; Complete 0%nat (OErr true); Poll 0%nat; Poll 1%nat; Advance 6;
+              Complete 1%nat (OErr true); Poll 1%nat; Complete 7%nat (OOk false); Poll 7%nat;
+              Advance 10; Poll 2%nat; Poll 3%nat; Complete 2%nat (OOk false); Poll 2%nat] in
+  let c := circ (fold_left (step_st cf) evs init) in
+  state c = HalfOpen /\ cwin c = [(false, false)] /\ (tc c, fc c, sc c, slowc c) = (1, 0, 1, 0).
+Proof. vm_compute. repeat split. Qed.
+
+From Coq Require QArith.
+
+(* ------------------------------------------------------------------------- *)
+(* What the documented machine's [trips] means, independently of the model's arithmetic:
+   [rate_ge] (shared by model and spec) is the comparison of two rationals whenever the window is
+   non-empty, and the window over which a closed breaker is judged is never empty (it contains
+   the call just recorded), so the value of [rate_ge] at total = 0 is never used. *)
+Lemma rate_ge_rational cnt total num den :
+  0 < total -> 0 < den ->
+  (rate_ge cnt total num den = true <->
+   QArith_base.Qle (QArith_base.Qmake num (Z.to_pos den)) (QArith_base.Qmake cnt (Z.to_pos total))).
+Proof.
+  intros Ht Hd. unfold rate_ge, QArith_base.Qle. cbn [QArith_base.Qnum QArith_base.Qden].
+  rewrite !Z2Pos.id by lia. rewrite Z.leb_le. reflexivity.
+Qed.
+
+Lemma window_push_nonempty cf t hist f sl :
+  0 <= wdur cf -> window cf t (hist ++ [(t, f, sl)]) <> [].
+Proof.
+  intros Hd. unfold window. destruct (time_based cf).
+  - rewrite filter_app. cbn [filter fst].
+    replace (wdur cf <? t - t) with false by (symmetry; apply Z.ltb_ge; lia). cbn [negb].
+    intros H. apply app_eq_nil in H. destruct H as [_ H]. discriminate.
+  - intros H. apply (f_equal (@length _)) in H. rewrite lastn_length, app_length in H. cbn [length] in H.
+    assert (1 <= Z.to_nat (Z.max (wsize cf) 1))%nat by lia. lia.
+Qed.
+
+Lemma trips_meaning cf t hist f sl :
+  wf cf = true ->
+  let hist' := hist ++ [(t, f, sl)] in
+  let w := window cf t hist' in
+  let n := Z.of_nat (length w) in
+  0 < n /\
+  (trips cf t hist' = true <->
+   enough cf t hist' = true /\
+   (QArith_base.Qle (QArith_base.Qmake (fnum cf) (Z.to_pos (fden cf)))
+                    (QArith_base.Qmake (count_fail w) (Z.to_pos n)) \/
+    (slow_on cf = true /\
+     QArith_base.Qle (QArith_base.Qmake (snum cf) (Z.to_pos (sden cf)))
+                     (QArith_base.Qmake (count_slow w) (Z.to_pos n))))).
+Proof.
+  intros Hwf hist' w n.
+  assert (Hd : 0 <= wdur cf) by (apply wf_dur; exact Hwf).
+  assert (Hfd : 0 < fden cf /\ 0 < sden cf).
+  { unfold wf in Hwf. repeat (apply andb_true_iff in Hwf; destruct Hwf as [Hwf ?]).
+    split; apply Z.ltb_lt; assumption. }
+  assert (Hn : 0 < n).
+  { subst n w hist'. pose proof (window_push_nonempty cf t hist f sl Hd) as H.
+    destruct (window cf t (hist ++ [(t, f, sl)])); [congruence|cbn [length]; lia]. }
+  split; [exact Hn|].
+  unfold trips. fold hist'. fold w. fold n.
+  rewrite andb_true_iff, orb_true_iff, andb_true_iff.
+  rewrite (rate_ge_rational _ _ _ _ Hn (proj1 Hfd)), (rate_ge_rational _ _ _ _ Hn (proj2 Hfd)).
+  reflexivity.
+Qed.
